@@ -29,6 +29,31 @@ REPO = '/repo'
 PY = '/venv/bin/python'
 
 
+# which checks can be reached from which source file (used for the property-preserving changes under mutants/PRESERVE)
+TOUCHES = {
+    'cardutil/iso8583.py': 'C01 C02 C06 C07 C08 C10 C12 C16 C19 C20',
+    'cardutil/mciipm.py': 'C03 C04 C05 C06 C07 C09 C10 C11 C17 C18 C19 C20',
+    'cardutil/card.py': 'C15 C16',
+    'cardutil/pinblock.py': 'C13 C14',
+    'cardutil/key.py': 'C14',
+    'cardutil/config.py': 'C01 C02 C06 C08 C17 C18 C20',
+    'cardutil/__init__.py': 'C07 C09 C10',
+    'cardutil/cli/': 'C07 C10 C18 C19 C20',
+}
+
+
+def props_touched(patch):
+    props = set()
+    with open(patch) as f:
+        for ln in f:
+            if ln.startswith('+++ b/'):
+                path = ln[6:].split()[0]
+                for k, v in TOUCHES.items():
+                    if path == k or (k.endswith('/') and path.startswith(k)):
+                        props |= set(v.split())
+    return sorted(props) or ['C%02d' % k for k in range(1, 21)]
+
+
 def discover(only):
     out = []
     mroot = os.path.join(HERE, 'mutants')
@@ -38,7 +63,9 @@ def discover(only):
             continue
         for fn in sorted(os.listdir(d)):
             if fn.endswith('.diff'):
-                out.append({'name': '%s/%s' % (prop, fn[:-5]), 'props': [prop] if prop != 'ALL' else ['C%02d' % k for k in range(1, 21)],
+                out.append({'name': '%s/%s' % (prop, fn[:-5]),
+                            'props': props_touched(os.path.join(d, fn)) if prop == 'PRESERVE' else
+                            [prop] if prop != 'ALL' else ['C%02d' % k for k in range(1, 21)],
                             'patch': os.path.join(d, fn),
                             'equiv': fn.endswith('.equiv.diff')})
     sroot = os.path.join(VERIF, 'seeded')
@@ -51,8 +78,8 @@ def discover(only):
             props = m.get('detected_by') or [m['property']]
             out.append({'name': 'seeded/' + name, 'props': props, 'patch': patch, 'equiv': False})
     if only:
-        out = [m for m in out if set(m['props']) & set(only) or m['name'] in only
-               or any(m['name'].endswith('/' + o) for o in only)]
+        out = [m for m in out if (set(m['props']) & set(only) and not m['name'].startswith('PRESERVE/')) or m['name'] in only
+               or any(m['name'].endswith('/' + o) or m['name'].startswith(o + '/') for o in only)]
     return out
 
 
